@@ -129,7 +129,7 @@ PROPS = {
     "C04": dict(
         title="reordering conjuncts/disjuncts (answer multiset)",
         props_module="PvModel.Props.C04",
-        props_extra=["PvModel.Props.C04Rel"],
+        props_extra=["PvModel.Props.C04Rel", "PvModel.Props.C04Count"],
         rule="terminating programs, half pure tree (==, !=, fresh, nested conde) and half FD (the C16 generator incl. conde and structured query "
              "terms); each run as written and under random permutations of every conjunction and every clause list (all permutations of a "
              "top-level conjunction of <=3 goals); answers compared as multisets of (canonical terms, truth table of the reported constraints) / "
